@@ -237,10 +237,25 @@ class V1Sub(V1):
 
 
 @dataclass
+class V1SubSub(V1Sub):  # third level: what is registered on V1 must reach it through V1Sub
+    more: int = 0
+
+
+@dataclass
 class DR:
     a: Optional[int] = None
     b: Optional[int] = None
     c: Optional[int] = None
+
+
+@dataclass
+class DRSub(DR):
+    d: Optional[int] = None
+
+
+@dataclass
+class DRSubSub(DRSub):
+    e: Optional[int] = None
 
 
 @dataclass
@@ -252,6 +267,11 @@ class S1:
 @dataclass
 class S1Sub(S1):
     m: int = 2
+
+
+@dataclass
+class S1SubSub(S1Sub):
+    k: int = 3
 
 
 @with_fields_set
@@ -317,6 +337,11 @@ LPet = Annotated[Union[LCat, LDog], discriminator("kind")]
 class Color(Enum):
     RED = "red"
     BLUE = "blue"
+
+
+class floatEnum(Enum):  # values that are neither str nor int: serialized through the method of their type
+    HALF = 0.5
+    QUARTER = 0.25
 
 
 @dataclass
@@ -401,6 +426,8 @@ TYPES: Dict[str, Any] = {
     "UUID": uuid.UUID, "OptP": Optional[P], "ListOp1": List[Op1], "ListAnimal": List[Animal],
     "UnionIS": UnionIS, "UnionSI": UnionSI, "Any": Any,
     "BoxInt": Box[int], "BoxHolder": BoxHolder, "User": User, "UserView": UserView, "ExV": ExV, "Op1Ex": Op1Ex,
+    "V1SubSub": V1SubSub, "DRSubSub": DRSubSub, "S1SubSub": S1SubSub, "float": float, "floatEnum": floatEnum,
+    "floatEnumList": List[floatEnum],
 }
 
 # =====================================================================  pre-built configuration objects
@@ -746,6 +773,29 @@ def _():
 @cfg("reset_serializer.Op1Sub", "conv_s")
 def _():
     reset_serializer(Op1Sub)
+
+
+def float_to_pct(f: float) -> str:
+    return "%d%%" % round(f * 100)
+
+
+def float_to_list(f: float) -> List[int]:
+    return [int(f * 100)]
+
+
+@cfg("serializer.float.to_pct", "conv_s", "fe")
+def _():
+    serializer(float_to_pct)
+
+
+@cfg("serializer.float.to_list", "conv_s", "fe")
+def _():
+    serializer(float_to_list)
+
+
+@cfg("reset_serializer.float", "conv_s", "fe")
+def _():
+    reset_serializer(float)
 
 
 @cfg("as_str.Op2", "conv_d", "conv_s", "op2")
@@ -1308,6 +1358,10 @@ _des("DR.a", "DR", {"a": 1}, "depreq", "err_missing_property")
 _des("DR.b", "DR", {"b": 1}, "depreq")
 _des("DR.c", "DR", {"c": 1}, "depreq")
 _des("DR.ab", "DR", {"a": 1, "b": 2}, "depreq")
+_des("DRSubSub.a", "DRSubSub", {"a": 1, "e": 2}, "depreq", "err_missing_property")
+_des("DRSubSub.b", "DRSubSub", {"b": 1}, "depreq")
+_des("V1SubSub.order", "V1SubSub", {"lo": 5, "hi": 2, "extra": -1, "more": 1}, "validator")
+_des("V1SubSub.all", "V1SubSub", {"lo": 900, "hi": 500, "tag": ""}, "validator")
 _des("FS", "FS", {"a": 1}, "unset")
 _des("Rec", "Rec", {"v": 1, "nxt": {"v": 2, "p": {"n": 1, "zz": 1}}}, "addprops", "alias")
 _des("Rec.camel", "Rec", {"v": 1, "p": {"nameX": "q"}}, "alias")
@@ -1413,6 +1467,10 @@ _ser("AL", "AL", lambda: AL("a", "b", AL("c", "d")), "alias")
 _ser("OR", "OR", lambda: OR(), "order")
 _ser("S1", "S1", lambda: S1(1, [S1(2)]), "serialized", "order")
 _ser("S1Sub", "S1Sub", lambda: S1Sub(1, [], 5), "serialized", "order")
+_ser("S1SubSub", "S1SubSub", lambda: S1SubSub(1, [], 5, 7), "serialized", "order")
+_ser("float", "float", lambda: 0.5, "fe")
+_ser("floatEnum", "floatEnum", lambda: floatEnum.HALF, "fe", "enum")
+_ser("floatEnumList", "floatEnumList", lambda: [floatEnum.QUARTER, floatEnum.HALF], "fe")
 _ser("FS.unset", "FS", lambda: FS(a=1), "unset", "exclude")
 _ser("FS.all", "FS", lambda: FS(1, 2), "unset")
 _ser("Rec", "Rec", lambda: Rec(1, Rec(2, None, P(3)), None), "alias", "exclude")
@@ -1509,6 +1567,7 @@ for _t, _tags in [
     ("PosInt", ("schemareg",)), ("FL", ("flat", "alias", "fields")), ("LPet", ("lpet", "disc")), ("L", ("enum",)),
     ("BoxHolder", ("box", "typename")), ("BoxInt", ("box", "typename")), ("UserView", ("user", "fields", "alias")),
     ("ExV", ("exclude", "alias", "nocopy_s")), ("Op1Ex", ("conv_s",)),
+    ("V1SubSub", ("validator",)), ("DRSubSub", ("depreq",)), ("S1SubSub", ("serialized",)), ("floatEnum", ("fe",)),
 ]:
     _schemas(_t, *_tags)
 
